@@ -95,6 +95,14 @@ def judge(case):
                 cal.add_component(Timezone())
         if case["path"] == "parsed":
             cal = Calendar.from_ical(cal.to_ical())
+        elif case.get("tuple_params"):
+            # multi-valued parameters given as tuples (written as TZID=A,B like lists)
+            for comp_ in cal.walk():
+                for nm_ in comp_.keys():
+                    for v_ in (comp_[nm_] if isinstance(comp_[nm_], list) else [comp_[nm_]]):
+                        pr_ = getattr(v_, "params", None)
+                        if pr_ is not None and isinstance(pr_.get("TZID"), list):
+                            pr_["TZID"] = tuple(pr_["TZID"])
     except Exception as e:
         return [Failure("C18.build", "build-raises/" + exc_signature(e), repr(e)[:300])]
     present = [str(t["TZID"]) for t in cal.walk("VTIMEZONE") if "TZID" in t]
@@ -151,8 +159,11 @@ def judge(case):
     # closure
     snapshots = []
     try:
+        kw = {"default": dict(first_date=WINDOW[0], last_date=WINDOW[1]), "none": {}, "first-beyond-default-last": dict(first_date=date(2040, 1, 1)),
+              "last-before-default-first": dict(last_date=date(1969, 12, 31)), "equal": dict(first_date=date(2021, 1, 1), last_date=date(2021, 1, 1)),
+              "reversed": dict(first_date=date(2022, 1, 1), last_date=date(2021, 1, 1))}[case.get("window") or "default"]
         for _ in range(case["calls"]):
-            cal.add_missing_timezones(first_date=WINDOW[0], last_date=WINDOW[1])
+            cal.add_missing_timezones(**kw)
             snapshots.append((len(cal.subcomponents), cal.to_ical()))
     except Exception as e:
         fails.append(Failure("C18.closure", "add_missing_timezones-raises/" + exc_signature(e), repr(e)[:300]))
@@ -181,7 +192,9 @@ def judge(case):
 
 
 def info(case):
-    classes = ["path:" + case["path"]]
+    classes = ["path:" + case["path"], "window:" + (case.get("window") or "default")]
+    if case.get("tuple_params") and case["path"] == "api":
+        classes.append("multi-valued-parameters-as-tuples")
     ids = spec_ids(case["tree"])
     for pre in case["pre"]:
         if pre["kind"] == "own-zone":
@@ -282,7 +295,8 @@ def cases(draw):
     edits = draw(st.lists(st.fixed_dictionaries({"node": st.integers(0, 5), "op": st.sampled_from(["set", "set", "exdate", "param", "drop"]),
                                                   "v": _wall, "tz": st.sampled_from(KNOWN + UNKNOWN[:1])}), max_size=3))
     edits = [dict(e, tz=e["tz"] if e["op"] == "param" or e["tz"] in KNOWN else KNOWN[0]) for e in edits]
-    return {"provider": draw(st.sampled_from(["zoneinfo", "pytz"])), "path": path, "tree": tree, "pre": pre, "calls": draw(st.integers(1, 3)), "edits": edits}
+    return {"provider": draw(st.sampled_from(["zoneinfo", "pytz"])), "path": path, "tree": tree, "pre": pre, "calls": draw(st.integers(1, 3)), "edits": edits,
+            "tuple_params": draw(st.booleans()), "window": draw(st.sampled_from(["default", "default", "default", "none", "first-beyond-default-last", "last-before-default-first", "equal", "reversed"]))}
 
 
 def streams(tier):
